@@ -72,7 +72,7 @@ func Registry(prop, tier string) []UniverseDef {
 	}
 	if prop != "C04" {
 		// a few compound universes take part in every tree-level property
-		keep := map[string]bool{"compound[u64,u64,str]/LONG": true, "compound[u64,u64,str]/VALS": true, "compound[u8,str]/PRODUCT": true,
+		keep := map[string]bool{"compound[u64,u64,str]/LONG": true, "compound[u64,u64,str]/VALS": true, "compound[u8,str]/LONGSTR": true, "compound[u64,u16,u8,raw]/LENPFX": true, "compound[u8,str]/PRODUCT": true,
 			"compound[i16,f32]/PRODUCT": true, "compound[f64,u8,str]/PRODUCT": true, "compound[int,i8]/PRODUCT": true}
 		for _, d := range CompoundRegistry("thorough") {
 			if keep[d.Name] {
